@@ -88,7 +88,11 @@ func (d *Data) TokenReader() xml.TokenReader {
 	case d.NoCache:
 		attrs = append(attrs, xml.Attr{Name: xml.Name{Local: "max-age"}, Value: "0"})
 	case d.MaxAge > 0:
-		attrs = append(attrs, xml.Attr{Name: xml.Name{Local: "max-age"}, Value: strconv.FormatFloat(d.MaxAge.Seconds(), 'f', 0, 64)})
+		// A max age that rounds down to zero seconds means that there is no hint,
+		// not that caching is explicitly forbidden (that is what NoCache is for).
+		if age := strconv.FormatFloat(d.MaxAge.Seconds(), 'f', 0, 64); age != "0" {
+			attrs = append(attrs, xml.Attr{Name: xml.Name{Local: "max-age"}, Value: age})
+		}
 	}
 	if d.CID != "" {
 		attrs = append(attrs, xml.Attr{Name: xml.Name{Local: "cid"}, Value: d.CID})
